@@ -39,11 +39,11 @@ TInit ==
     /\ tid \in 1..Len(TraceLog)
     /\ l = 2
     /\ cfg = [P |-> Tr.steps[1].P, age |-> Tr.steps[1].age, L0 |-> Tr.steps[1].L0, maxbuf |-> Tr.steps[1].maxbuf,
-              tick |-> Tr.steps[1].tick]
+              tick |-> Tr.steps[1].tick, lead |-> Tr.steps[1].lead]
     /\ buf = <<>> /\ maxlen = cfg.L0
     /\ start = None /\ received = 0 /\ periodUs = None
     /\ hist = <<>> /\ lost = 0
-    /\ all = <<>> /\ lastTs = 0 /\ nextT = cfg.P /\ nticks = 0
+    /\ all = <<>> /\ lastTs = cfg.lead /\ nextT = cfg.P /\ nticks = 0
     /\ lastT = None /\ winLoUs = None /\ handed = <<>> /\ declared = <<>> /\ emitted = None
     /\ h = <<>>
 
@@ -56,14 +56,23 @@ RecvT(r) ==
 TickT(r) ==
     LET o == r.obs
         \* the code's estimator outcome: the period it reports now, if it had none before
-        estObs == IF periodUs = None /\ o.period # None THEN o.period ELSE None
+        estRaw == IF periodUs = None /\ o.period # None THEN o.period ELSE None
+        \* only a sane estimate is adopted; with an insane one (negative, or made at a tick that is
+        \* not later than the first sample) the buffer keeps its length in the spec, so the window
+        \* clauses below show what the code's resize lost
+        estObs == IF InputPeriodSaneOf(estRaw, o.start, r.T) THEN estRaw ELSE None
         got == Pairs(o.handed)
     IN
     /\ r.T = nextT
     /\ TickWith(r.T, estObs)
-    /\ Check(Estimate(r.T) = estObs, "C08.SourceProperties",
-             <<"period estimated at", r.T, "got", estObs, "transcription", Estimate(r.T)>>)
+    /\ Check(Estimate(r.T) = estRaw, "C08.SourceProperties",
+             <<"period estimated at", r.T, "got", estRaw, "transcription", Estimate(r.T)>>)
     /\ PropsCheck(o, start', received', periodUs')
+    \* whatever estimator the code uses: a period estimated at this tick is positive and this tick is
+    \* later than the first sample's stamp (the trace binds the code's own estimate, so a negative or
+    \* premature one would otherwise silently size the buffer)
+    /\ Check(InputPeriodSaneOf(estRaw, o.start, r.T) /\ (o.period # None => o.period > 0), "C08.InputPeriodSane",
+             <<"T", r.T, "first sample stamped", o.start, "reported input period (us)", o.period>>)
     /\ Check(o.T = r.T, "C08.EmittedAtT", <<"sink got timestamp", o.T, "tick", r.T>>)
     /\ Check(got = declared', "C08.ExactWindow",
              <<"T", r.T, "window_lo_us", winLoUs', "buffer_len", maxlen', "handed", o.handed, "expected", declared'>>)
